@@ -50,7 +50,9 @@ func C09(t *rapid.T) *world.Scenario {
 	slots := make([]*slot, nres)
 	for i := range slots {
 		slots[i] = &slot{res: ResourceNames[rapid.IntRange(0, len(ResourceNames)-1).Draw(t, "res"+itoa(int64(i)))]}
-		if Pct(t, "exactlen"+itoa(int64(i)), 30) {
+		if Pct(t, "rawquery"+itoa(int64(i)), 6) {
+			slots[i].res = "r7"
+		} else if Pct(t, "exactlen"+itoa(int64(i)), 30) {
 			// a URI whose cache key has an exactly drawn length (every length in the range where
 			// file names, fragments and other size limits of a backend may sit)
 			n := rapid.IntRange(150, 330).Draw(t, "keylen"+itoa(int64(i)))
@@ -517,7 +519,7 @@ func C06(t *rapid.T) *world.Scenario {
 			}
 		}
 		if len(cc) > 0 {
-			rp.Header = append(rp.Header, H("Cache-Control", JoinCC(MaybeExt(t, lbl+"-rp", cc, 10))))
+			rp.Header = append(rp.Header, CCLines(t, lbl+"-rp", MaybeExt(t, lbl+"-rp", cc, 10))...)
 		}
 		if Pct(t, lbl+"-etag", 50) {
 			rp.Header = append(rp.Header, H("Etag", `"v$S"`))
@@ -596,7 +598,9 @@ func C07(t *rapid.T) *world.Scenario {
 		rp := world.Reply{Kind: "resp", Status: st, Body: world.Body{Len: 12}, Header: [][2]string{H("Date", "$T+0")}}
 		locs := []string{"", "", "/", "/p/r~1%2Fx?q=1&z=%C3%A9", "p/r~1%2Fx?q=1&z=%C3%A9", "http://a.test/", "http://a.test:80/", "HTTP://A.TEST/p/./r~1%2Fx?q=1&z=%C3%A9",
 			"//a.test/", "//a.test/p/r~1%2Fx?q=1&z=%C3%A9", "//A.TEST:80/", "?q=1&z=%C3%A9", "./", "../",
-			"https://b.test:8443/a/b;p=1/c", "https://B.TEST:8443/a/b;p=1/c", "https://a.test/", "http://a.test:8080/", "//b.test:8443/a/b;p=1/c"}
+			"https://b.test:8443/a/b;p=1/c", "https://B.TEST:8443/a/b;p=1/c", "https://a.test/", "http://a.test:8080/", "//b.test:8443/a/b;p=1/c",
+			// values that are no URI reference at all: they name nothing, and the other field still counts
+			"/p/100%zz", "http://a.test:port/", "%", "http://[::1/"}
 		if l := Pick(t, lbl+"-loc", locs...); l != "" {
 			rp.Header = append(rp.Header, H("Location", l))
 		}
